@@ -1,6 +1,7 @@
 //! Per-property checks.
 
 pub mod bigbatch;
+pub mod bigrecovery;
 pub mod c06;
 pub mod c07;
 pub mod c08;
@@ -146,7 +147,9 @@ pub fn run_check(prop: &str, tier: &str) -> i32 {
         "C04" => {
             let s = suites::crash_suites(thorough);
             let plan = crashprops::CrashPlan { crash: true, layout_tag: "C10", nest: if thorough { 2 } else { 1 }, reopen_cycles: if thorough { 2 } else { 1 }, sector_tear: false, layout: false, probe_auto_ts: false };
-            crashprops::crash_check(prop, s, &["C04"], plan, budget, &mut report);
+            crashprops::crash_check(prop, s, &["C04"], plan, budget * 0.9, &mut report);
+            // recovery that needs more than one journal record for its own retirements
+            bigrecovery::run(&["C04"], &mut report);
         }
         "C05" => {
             // (1) deep histories, partition + independent-reader check at every acknowledged flush
@@ -246,6 +249,8 @@ pub fn run_check(prop: &str, tier: &str) -> i32 {
             let cs: Vec<Suite> = suites::crash_suites(thorough).into_iter().filter(|s| s.name == "crash-ttl-v3" || s.name.starts_with("crash-ttl-reuse")).collect();
             let plan = crashprops::CrashPlan { crash: true, layout_tag: "C10", nest: 0, reopen_cycles: 0, sector_tear: false, layout: false, probe_auto_ts: false };
             crashprops::crash_check(prop, cs, &["C11", "C02", "C03"], plan, budget * 0.25, &mut report);
+            // recovery interrupted between two of its own retirement transactions (> 1024 extents)
+            bigrecovery::run(&["C11"], &mut report);
         }
         "C12" => {
             let s = pick(&["ts-mem", "mem-wide", "ts-mem-limit", "disk-wide-v2", "ts-disk-v1", "ts-disk-v2", "ts-disk-v3", "mem-limit", "mem-core", "disk-limit"], thorough);
